@@ -117,6 +117,16 @@ def gen_case(seed, tier):
     if rng.random() < 0.6:
         pool.append({'target': {'t': 'dict', 'n': ctx.new_nid(), 'v': [['a', {'t': 'dict', 'n': ctx.new_nid(), 'v': [['*', 1], ['b', 2]]}]]},
                      'spec': ['str', rng.choice(['a.*', 'a.b', '*', 'a.**', '**'])], 'kw': {}})
+    # one target type under every spec family that asks the registry for a handler (what one family
+    # learnt about a type -- also that it has NO handler -- must not change what another one does)
+    if rng.random() < 0.3:
+        tt = rng.choice([5, 2.5, None, True, {'t': 'obj', 'n': ctx.new_nid(), 'v': [['a', 1]]},
+                         {'t': 'list', 'n': ctx.new_nid(), 'v': [1, 2]}, {'t': 'dict', 'n': ctx.new_nid(), 'v': [['a', 1]]}])
+        fams = [['Sum'], ['Flatten'], ['Merge'], ['list', [['T', 'T', []]]], ['Iter', None, None, [], ['all']],
+                ['Group', ['list', [['T', 'T', []]]]], ['str', '*'], ['str', '**'], ['str', 'a'], ['str', '0'],
+                ['Fold', ['T', 'T', []], ['fn', 'int'], ['fn', 'add']]]
+        for fam in rng.sample(fams, rng.randint(2, 4)):
+            pool.append({'target': copy.deepcopy(tt), 'spec': fam, 'kw': {}})
     nops = rng.randint(4, 40 if tier == 'thorough' else 28)
     ops = []
     thorough = tier == 'thorough'
